@@ -366,3 +366,72 @@ class Handler(http.server.BaseHTTPRequestHandler):
         self._handle()
 
     do_HEAD = do_PUT = do_POST = do_DELETE = do_GET
+
+
+# --------------------------------------------------------------------------- history runner on the stand-in
+
+def norm_prefix(prefix):
+    """the repository prefix as a directory name: no trailing slashes ('' for the bucket root)"""
+    return (prefix or "").rstrip("/")
+
+
+def make_s3_runner(ctx, cfg, name, stub, bucket, prefix, handle="A"):
+    """a vplib.hist.Runner whose main repository is an S3 repository on the stand-in
+    (staging is always a local directory for S3 repositories)"""
+    import hashlib
+    from . import hist
+
+    class TimedSession(hist.Session):
+        """a call that does not answer within the limit kills the harness process (answer: panic)"""
+        limit = 300
+
+        def call(self, cmd, **kw):
+            t = threading.Timer(self.limit, self.p.kill)
+            t.start()
+            try:
+                return super().call(cmd, **kw)
+            finally:
+                t.cancel()
+
+    class S3Runner(hist.Runner):
+        def __init__(self):
+            self.stub, self.bucket, self.prefix = stub, bucket, prefix
+            super().__init__(ctx, dict(cfg, ext_staging=True), name, session=TimedSession(env=stub.env()),
+                             handle=handle, init=False)
+            self.own_session = True
+            self.root = None
+            r = self.s.call("init_s3", h=handle, endpoint=stub.endpoint, bucket=bucket, prefix=prefix,
+                            staging=self.stg, spec=cfg["repo_spec"], layout=hist.LAYOUTS[cfg["layout"]])
+            if "ok" not in r:
+                raise common.BuildError("cannot init S3 scratch repository: %r" % (r,))
+
+        def open_cmd(self, h):
+            return dict(cmd="open_s3", h=h, endpoint=stub.endpoint, bucket=bucket, prefix=prefix, staging=self.stg)
+
+        def reopen(self):
+            self.s.call("drop", h=self.h)
+            r = self.s.call(self.open_cmd(self.h))
+            if "ok" not in r:
+                raise common.BuildError("cannot reopen S3 scratch repository: %r" % (r,))
+
+        def rel_keys(self, with_bytes=False):
+            """{path relative to the repository prefix: bytes} of the bucket"""
+            p = norm_prefix(prefix)
+            pl = p + "/" if p else ""
+            return {k[len(pl):]: v for k, v in stub.dump(bucket).items() if k.startswith(pl)}
+
+        def snap_main(self):
+            out = {}
+            for k, v in self.rel_keys().items():
+                out[k] = ("f", len(v), hashlib.sha256(v).hexdigest(), hashlib.sha512(v).hexdigest())
+            return out
+
+        def object_roots(self):
+            roots = set()
+            for k in self.rel_keys():
+                d, _, f = k.rpartition("/")
+                if f.startswith("0=ocfl_object_"):
+                    roots.add(d)
+            return sorted(roots)
+
+    return S3Runner()
